@@ -68,6 +68,9 @@ func runProfile(j *core.Job, cc checkCfg) {
 		rep.Count(k, 0)
 	}
 	for _, bn := range j.Batches {
+		if bn == 0 {
+			RunKnown(j, cc.prop)
+		}
 		cfg := gen.Swarm(prng.Derive(j.Seed, cc.prop, bn, "cfg"), cc.profile)
 		if cc.nFuncs > 0 {
 			cfg.NFuncs = cc.nFuncs
